@@ -755,7 +755,7 @@ func TestVerifC11SRace(t *testing.T) {
 	res.Rule = "case = one free-running execution (real sync primitives, Go race detector) of one thread scenario of the sched part; the instrumented user state machine touches plain variables so that a forbidden overlap IS a data race; non-trivial = every one"
 	res.Assumptions = []string{"race part: schedules are whatever the Go runtime produces (not enumerated); it only adds data-race detection to the sched part"}
 	cmd := exec.Command(os.Args[0], "-test.run", "^TestVerifC11SRace$", "-test.count", "1", "-test.timeout", "0")
-	cmd.Env = append(os.Environ(), "VERIF_RACE_CHILD=1", fmt.Sprintf("VERIF_RACE_ITERS=%d", iters), "GORACE=halt_on_error=0", "VERIF_OUT=")
+	cmd.Env = append(os.Environ(), "VERIF_RACE_CHILD=1", fmt.Sprintf("VERIF_RACE_ITERS=%d", iters), "GORACE=halt_on_error=0", "VERIF_OUT=", "GOMAXPROCS=4")
 	var buf bytes.Buffer
 	cmd.Stdout = &buf
 	cmd.Stderr = &buf
